@@ -275,7 +275,7 @@ func (c *pathCtx) notePC(t *Term) {
 		c.markEntangled(t, 0)
 		return
 	}
-	if x := t.sup; x != nil && x.w <= 8 && t.size <= 400 {
+	if x := t.sup; x != nil && x.w <= 8 && t.size <= 3000 {
 		d := c.doms[x]
 		if d == nil {
 			d = c.domOf(x)
@@ -305,7 +305,7 @@ func (c *pathCtx) markEntangled(t *Term, depth int) {
 // solver. It returns (feasibleTrue, feasibleFalse, decided, witness value for
 // the side the current model does not take).
 func (c *pathCtx) quickDecide(t *Term) (ft, ff, decided bool, d *byteDom) {
-	if t.multi || t.sup == nil || t.sup.w > 8 || t.size > 400 {
+	if t.multi || t.sup == nil || t.sup.w > 8 || t.size > 3000 {
 		return false, false, false, nil
 	}
 	d = c.domOf(t.sup)
